@@ -358,7 +358,7 @@ def cf_judge_stat(e, o, viol):
             viol("stat succeeds on %s" % lst, "kind %s" % got)
         else:
             viol("stat wrong-kind", "got %s, allowed %s" % (got, sorted(allowed)))
-    elif got == "f" and lst == "file" and o.get("size") != len(CF_CONTENT[e["content"]]):
+    elif got == "f" and lst == "file" and e["content"] in CF_CONTENT and o.get("size") != len(CF_CONTENT[e["content"]]):
         viol("stat wrong-size", "size %s" % o.get("size"))
 
 
@@ -469,6 +469,7 @@ def run_c29(ctx):
                              qs=[dict(q=e["q"], risky=e["open"] in ("loop", "abs")) for e in c["qs"]]))
     obs = vlib.run_vh(ctx, "casfs", send, timeout=3000)
     n_q = n_sub = n_fstest = n_model_crash = 0
+    n_q_drift = [0]
     for c in cases:
         o = obs.get(c["id"])
         if o is None:
@@ -510,7 +511,8 @@ def run_c29(ctx):
             cf_judge_stat(e, q.get("stat"), viol)
             cf_judge_read(e, q, viol)
             oo = q.get("open") or {}
-            if e["algo"] == "crash" and not cf_crashed(oo):
+            if e["algo"] == "crash" and not cf_crashed(oo) and n_q_drift[0] < 3:
+                n_q_drift[0] += 1
                 ctx.drift("algorithm model predicts unbounded recursion on %s of %s but the code returned %s" % (cf_path(e["q"]), text, oo.get("err")))
         ft = o.get("fstest")
         if ft is not None:
@@ -522,3 +524,162 @@ def run_c29(ctx):
                     ctx.violation("C29 " + cls, dict(case=c, tree=text, line=line))
     ctx.extra.update(queries=n_q, opens_in_own_subprocess=n_sub, fstest_runs=n_fstest, model_predicted_crashes=n_model_crash)
     ctx.traces_validated = n_q + n_fstest
+
+
+# ============================================================================================== C34
+
+def fo_name(n):
+    return {0: "..", 7: "t_file", 8: "t_dir", 9: "nowhere"}.get(n) or "abcdefgh"[n - 1]
+
+
+def fo_path(p):
+    return "/".join(fo_name(n) for n in p)
+
+
+FO_CONTENT = {0: "zero\n", 1: "one, longer\n", 7: "sibling file\n"}
+
+
+def fo_expected(exp):
+    """The spec's expected tree as {relative path: (kind, content, target)}."""
+    def node(n):
+        return (n["k"], FO_CONTENT[n["c"]] if n["k"] == "f" else "", fo_path(n["t"]) if n["k"] == "l" else "")
+    out = {".": node(exp["root"])}
+    for e in exp["entries"]:
+        out[fo_path(e["p"])] = node(e)
+    return out
+
+
+def fo_view(snap):
+    return {p: (e["k"], e.get("content", ""), e.get("target", "")) for p, e in (snap or {}).items()}
+
+
+def fo_mode_class(m):
+    if not m["link"]:
+        return "copy"
+    return "link%s%s" % ("" if m["works"] else "-xdev", "" if m["fallback"] else "-nofallback")
+
+
+def fo_diff(exp, got):
+    """Difference classes between the expected tree and a snapshot."""
+    out = {}
+    for p, (k, c, t) in exp.items():
+        g = got.get(p)
+        where = "root" if p == "." else "entry"
+        if g is None:
+            if k == "d" and not any(q.startswith(p + "/") for q in exp) and p != ".":
+                out.setdefault("empty-directory-dropped", p)
+            else:
+                out.setdefault("%s-%s-missing" % (where, {"d": "directory", "f": "file", "l": "symlink"}[k]), p)
+        elif g[0] != k:
+            if k == "l" and g[0] == "f":
+                out.setdefault("%s-symlink-dereferenced" % where, p)
+            else:
+                out.setdefault("%s-kind-differs" % where, "%s: %s instead of %s" % (p, g[0], k))
+        elif k == "f" and g[1] != c:
+            out.setdefault("file-content-differs", p)
+        elif k == "l" and g[2] != t:
+            out.setdefault("symlink-target-differs", "%s: %r instead of %r" % (p, g[2], t))
+    for p in got:
+        if p not in exp:
+            out.setdefault("extra-entry", p)
+    return out
+
+
+CLAIM34 = dict(
+    category="model_checking", design_ref="DESIGN.md §4 C34",
+    text="FileOps.tla: property level Faithful (destination = source: root kind, every directory incl. empty ones, file contents, symlink "
+         "target strings) with failure allowed only for hard-linking without fallback when linking is impossible, source unchanged; "
+         "algorithm level RecursiveCopyOrLinkFile / CopyOrLinkFile of src/fs/copy.go (Lstat of the root, parents-first walk, mkdir / "
+         "re-create symlink / link-or-copy, non-directory roots handed straight to CopyOrLinkFile which in copy mode opens the path). TLC "
+         "enumerates every tree of <=3 (quick) / <=4 (thorough) entries (files, nested and empty directories, relative symlinks to a file, "
+         "to a directory, dangling, `..`) plus file and symlink roots (to a file, to a directory, dangling), checks the model against "
+         "Faithful in five modes (copy; link; link without fallback; both again with os.Link failing) with the one recorded flaw carried as "
+         "a named constant, and prints every tree. Each is materialised and copied by the real fs.RecursiveCopy, fs.RecursiveLink and "
+         "fs.RecursiveCopyOrLinkFile(link, no fallback), onto the same filesystem and onto a second filesystem (EXDEV); Lstat snapshots "
+         "of destination and of the source before/after are compared with the spec's expected tree.",
+    note="Not compared: permission bits, times, ownership, hard-link identity (same inode is allowed, not required). Pre-existing "
+         "destinations, absolute symlinks, special files, unreadable files and concurrent modification are not covered; LinkIfNotExists / "
+         "LinkDestination / fs.Link / fs.Symlink helpers are not driven. The cross-device modes need a second writable filesystem "
+         "(/dev/shm); if none exists they are skipped and counted. Trusted: TLC, the harness materialisation (checked against the spec's "
+         "tree before every call), Lstat/Readlink.",
+    technique="TLA+ spec FileOps.tla model-checked with TLC; every enumerated tree x mode replayed into the real recursive copy/link functions")
+
+
+@register("C34", claim=CLAIM34)
+def run_c34(ctx):
+    ctx.rule = ("every source tree of <=N entries over names a,b (files with 2 contents, nested and empty directories, symlinks a, b, ../a, "
+                "nowhere) plus file / symlink roots, enumerated by TLC (one state per tree) x 5 modes; non-trivial = the tree has a "
+                "symlink, a nested or an empty directory, or a non-directory root; distinct by tree")
+    ctx.assumptions = ["'reproduces' is about kinds, directory structure, file bytes and symlink target strings; permission bits are not compared",
+                       "hard-linking without fallback may fail when os.Link cannot work (other filesystem); nothing else may fail",
+                       "the destination does not exist beforehand and its parent does"]
+    if ctx.replay_only is not None:
+        cases = replay_cases(ctx)
+    else:
+        cfg = "GEN_FileOps_3.cfg" if ctx.quick else "GEN_FileOps_4.cfg"
+        cases = vlib.tlc(ctx, "FileOps", cfg, workers=8, timeout=3000).cases
+        if not ctx.quick:
+            r = vlib.tlc(ctx, "FileOps", "MC_FileOps_known.cfg", workers=2, allow_violation=True)
+            ctx.extra["recorded_flaw_RootSymlinkCopied_still_has_counterexample"] = r.invariant is not None
+        ctx.exhaustive = True
+    for i, c in enumerate(cases):
+        c["id"] = i
+    obs = run_vh_parallel(ctx, "fileops", [dict(id=c["id"], root=c["root"], entries=c["entries"],
+                                                modes=[{k: m[k] for k in ("link", "works", "fallback")} for m in c["modes"]]) for c in cases],
+                          procs=4)
+    n_runs = n_skipped = n_failed_allowed = n_same_inode = 0
+    n_drift = {}
+    for c in cases:
+        o = obs.get(c["id"])
+        if o is None:
+            raise vlib.Infra("no observation for case %d" % c["id"])
+        exp = fo_expected(c["expect"])
+        kinds = [e["k"] for e in c["entries"]]
+        dirs = [fo_path(e["p"]) for e in c["entries"] if e["k"] == "d"]
+        nontrivial = (c["root"]["k"] != "d" or "l" in kinds or any(len(e["p"]) > 1 for e in c["entries"])
+                      or any(not any(q.startswith(d + "/") for q in exp) for d in dirs))
+        ctx.count(json.dumps([c["root"], c["entries"]], sort_keys=True), nontrivial=nontrivial,
+                  sample=dict(tree=sorted((p,) + v for p, v in exp.items()), observed=o["modes"][0]) if len(c["entries"]) == 3 and "l" in kinds else None)
+        for m, r in zip(c["modes"], o["modes"]):
+            mc = fo_mode_class(m)
+            if r.get("skipped"):
+                n_skipped += 1
+                continue
+            n_runs += 1
+            if fo_view(r["src_before"]) != exp:
+                raise vlib.Infra("harness did not materialise the spec's tree: %s vs %s" % (r["src_before"], exp))
+
+            def viol(cls, why, m=m, r=r, mc=mc):
+                ctx.violation("C34 %s %s" % (mc, cls), dict(case=c, mode=m, api=r.get("api"), why=why, error=r.get("err"),
+                                                            expected=sorted((p,) + v for p, v in exp.items()),
+                                                            dst=sorted((p,) + v for p, v in fo_view(r.get("dst")).items())))
+            before, after = r["src_before"], r["src_after"]
+            sd = fo_diff(exp, fo_view(after))
+            perm = [p for p in before if p in after and before[p]["perm"] != after[p]["perm"]]
+            if sd or perm:
+                viol("source-modified", dict(diff=sd, perm_changed=perm))
+            if r.get("panic"):
+                viol("panic", r["panic"])
+                continue
+            rootdesc = ""
+            if c["root"]["k"] == "l":
+                rootdesc = "root-symlink-to-%s " % {7: "file", 8: "directory", 9: "nothing"}[c["root"]["t"][0]]
+            if r.get("err"):
+                if m["may_fail"]:
+                    n_failed_allowed += 1
+                else:
+                    viol(rootdesc + "error", r["err"])
+                continue
+            d = fo_diff(exp, fo_view(r["dst"]))
+            for cls in sorted(d):
+                viol(rootdesc + cls, d[cls])
+            if m["link"] and m["works"] and not d:
+                n_same_inode += any(e["k"] == "f" and r["dst"][p]["ino"] == before[p]["ino"] for p, e in before.items())
+            # model-drift diagnostic: the algorithm model's verdict vs the code's
+            if m["algo_faithful"] != (not d):
+                n_drift[mc] = n_drift.get(mc, 0) + 1
+                if n_drift[mc] == 1:   # one line per mode class, the count goes into the evidence
+                    ctx.drift("%s: model says faithful=%s, code %s on %s" % (mc, m["algo_faithful"], "differs" if d else "is faithful", c["entries"] or c["root"]))
+    ctx.extra.update(copy_runs=n_runs, modes_skipped_no_second_filesystem=n_skipped, allowed_failures_observed=n_failed_allowed,
+                     link_runs_sharing_inodes=n_same_inode, model_drift_by_mode=n_drift)
+    ctx.traces_validated = n_runs
